@@ -5,6 +5,7 @@ import DG.BuildProto
 import DG.Prune
 import DG.Segment
 import DG.Reload
+import DG.JsrProto
 /-! Line-protocol driver: one request per line on stdin, one answer per line on stdout. -/
 open DG DG.Sexp
 
@@ -152,6 +153,36 @@ def handle (st : DState) (req : Sexp) : DState × String :=
       | some (g', out) => ({ st with hist := g' }, DG.Build.showSt out)
       | none => (st, "OUT-OF-FUEL")
     | _, _, _, _ => (st, "bad-op")
+  | .list [.atom "jsr-export", ex, name] =>
+    match DG.Jsr.Proto.exports? ex, DG.Jsr.Proto.str? name with
+    | some e, some n =>
+      let r := match e.export n with
+        | some p => "some:" ++ DG.Jsr.Proto.showStr p
+        | none => "none"
+      (st, joinSp (r :: e.list.map fun (k, v) => "L" ++ DG.Jsr.Proto.showStr k ++ ">" ++ DG.Jsr.Proto.showStr v))
+    | _, _ => (st, "bad-op")
+  | .list [.atom "jsr-urlnv", reg, url, .list (.atom "valid" :: vs)] =>
+    match DG.Jsr.Proto.str? reg, DG.Jsr.Proto.str? url, vs.mapM DG.Jsr.Proto.str? with
+    | some reg, some url, some vs =>
+      (st, match DG.Jsr.urlToNv (fun v => vs.contains v) reg url with
+        | some (n, v) => DG.Jsr.Proto.showStr n ++ " " ++ DG.Jsr.Proto.showStr v
+        | none => "none")
+    | _, _, _ => (st, "bad-op")
+  | .list [.atom "jsr-pkgurl", reg, name, ver] =>
+    match DG.Jsr.Proto.str? reg, DG.Jsr.Proto.str? name, DG.Jsr.Proto.str? ver with
+    | some reg, some n, some v => (st, DG.Jsr.Proto.showStr (DG.Jsr.packageUrl reg n v))
+    | _, _, _ => (st, "bad-op")
+  | .list [.atom "jsr-subpath", base, url] =>
+    match DG.Jsr.Proto.str? base, DG.Jsr.Proto.str? url with
+    | some b, some u =>
+      (st, match DG.Jsr.getSubpath b u with
+        | some p => "some:" ++ DG.Jsr.Proto.showStr p
+        | none => "none")
+    | _, _ => (st, "bad-op")
+  | .list (.atom "jsr-pass" :: rest) =>
+    match DG.Jsr.Proto.pass? rest with
+    | some p => (st, DG.Jsr.Proto.showPass (DG.Jsr.resolvePass p.reg p.names p.mode p.table p.items))
+    | none => (st, "bad-op")
   | .list [.atom "valid"] =>
     (st, match st.graph.valid with | some e => e.show | none => "ok")
   | _ => (st, "bad-op")
